@@ -169,6 +169,10 @@ def build_interface_output(compiler_data: CompilerData) -> str:
         for func in interface.functions.values():
             if func.visibility == FunctionVisibility.INTERNAL or func.name == "__init__":
                 continue
+            if func.is_fallback:
+                # `__default__` cannot be declared in an interface
+                # (the compiler rejects it there)
+                continue
             if func.mutability != StateMutability.NONPAYABLE:
                 out += f"@{func.mutability.value}\n"
             args = ", ".join([f"{arg.name}: {arg.typ}" for arg in func.arguments])
